@@ -354,6 +354,79 @@ pub fn check_instances(nip: usize, nport: usize) -> (Vec<Finding>, u64) {
     }
 }
 
+/// All pairs over a set of InstanceInformation values that differ in name spelling (letter case,
+/// dots, backslash escapes, spaces, non-ASCII), addresses, ports and attributes:
+/// a == b must imply hash(a) == hash(b) and membership in a HashSet keyed by either.
+pub fn instance_pair_values() -> Vec<InstanceInformation> {
+    let mut names: Vec<String> = Vec::new();
+    let mut b = Vec::new();
+    crate::engine::for_each_string_upto(&[b'a', b'A', b'.', b'\\', b' ', 0xc3], 3, &mut b, &mut |x| {
+        // 0xc3 stands for a two-byte character
+        let s: String = x.iter().map(|c| if *c == 0xc3 { 'é' } else { *c as char }).collect();
+        names.push(s);
+    });
+    names.extend(["a\\.b", "a.b", "a\\b", "ab", "a\\\\b", "a\\\\.b", "My Printer", "my printer", "Į", "\\.", "Ю"].iter().map(|s| s.to_string()));
+    let mut out = Vec::new();
+    for n in &names {
+        out.push(InstanceInformation::new(n.clone()).with_port(80).with_ip_address("10.0.0.1".parse().unwrap()));
+    }
+    for n in ["a", "A", "a.b", "a\\.b"] {
+        let base = || InstanceInformation::new(n.to_string());
+        out.push(base());
+        out.push(base().with_port(80));
+        out.push(base().with_port(81));
+        out.push(base().with_port(80).with_port(81));
+        out.push(base().with_ip_address("10.0.0.1".parse().unwrap()));
+        out.push(base().with_ip_address("::ffff:10.0.0.1".parse().unwrap()));
+        out.push(base().with_ip_address("fe80::1".parse().unwrap()).with_ip_address("10.0.0.1".parse().unwrap()));
+        out.push(base().with_attribute("k".into(), None));
+        out.push(base().with_attribute("k".into(), Some(String::new())));
+        out.push(base().with_attribute("k".into(), Some("v".into())));
+        out.push(base().with_attribute("K".into(), Some("v".into())));
+        out.push(base().with_attribute("k".into(), Some("v".into())).with_attribute("j".into(), Some("w".into())));
+        out.push(base().with_attribute("j".into(), Some("w".into())).with_attribute("k".into(), Some("v".into())));
+    }
+    out
+}
+
+pub fn check_instance_pairs() -> (Vec<Finding>, u64, u64) {
+    let case = json!({"kind": "instance-pairs"});
+    let r = guarded(|| {
+        let vals = instance_pair_values();
+        let hs: Vec<u64> = vals.iter().map(h).collect();
+        let mut bad: Vec<(String, String)> = Vec::new();
+        let mut equal_pairs = 0u64;
+        for (i, a) in vals.iter().enumerate() {
+            let mut set = std::collections::HashSet::new();
+            set.insert(a.clone());
+            for (j, b) in vals.iter().enumerate() {
+                if a == b {
+                    equal_pairs += 1;
+                    if hs[i] != hs[j] {
+                        bad.push(("equal-but-hash-differs".into(), format!("{:?} == {:?} but they hash differently", a, b)));
+                    }
+                    if !set.contains(b) {
+                        bad.push(("equal-but-not-found-in-set".into(), format!("HashSet holding {:?} does not contain the equal value {:?}", a, b)));
+                    }
+                    if b != a {
+                        bad.push(("asymmetric".into(), format!("{:?} == {:?} but not the reverse", a, b)));
+                    }
+                } else if i == j {
+                    bad.push(("irreflexive".into(), format!("{:?} != itself", a)));
+                }
+            }
+        }
+        (bad, vals.len() as u64, equal_pairs)
+    });
+    match r {
+        Err(pn) => (vec![finding(format!("C16|instance-pairs|{}", pn.sig()), format!("{:?}", pn), case)], 0, 0),
+        Ok((bad, n, eqp)) => {
+            let mut seen = std::collections::BTreeSet::new();
+            (bad.into_iter().filter(|(t, _)| seen.insert(t.clone())).map(|(t, d)| finding(format!("C16|instance-pairs|{}", t), d, case.clone())).collect(), n, eqp)
+        }
+    }
+}
+
 pub fn run(ctx: &Ctx) {
     let thorough = ctx.tier == crate::engine::Tier::Thorough;
     ctx.set_rule("every packet of the C02 space, as built from parts and as parsed from its own compressed bytes (borrowing from the buffer): clone and into_owned of the packet, OPT, every question, record, name, label and RDATA must observe equal, compare equal, hash equally and serialise identically, and owned copies must outlive the buffer; all pairs of a 60-record set (differing in TTL / cache-flush only, class, owner, RDATA) for a == b => hash(a) == hash(b) and for == agreeing with field equality; InstanceInformation with up to 4 addresses and 4 ports inserted in every permutation. non-trivial = packet has at least one record");
@@ -363,6 +436,7 @@ pub fn run(ctx: &Ctx) {
         space.extend(gen::cross_family(1, false));
     }
     space.extend(gen::many_and_sized_packets());
+    space.extend(gen::size_sweep_packets());
     let chunks: Vec<&[RefPacket]> = space.chunks(64).collect();
     par_shards(ctx, &chunks, |ps, t: &mut Tally| {
         for p in ps.iter() {
@@ -411,6 +485,17 @@ pub fn run(ctx: &Ctx) {
     ctx.merge(t);
     ctx.space("InstanceInformation: 0..=4 addresses x 0..=4 ports, every insertion order of both sets", total, "complete");
     ctx.sample(json!({"kind": "instances", "ips": 3, "ports": 2}));
+    {
+        let mut t = Tally::default();
+        let (f, n, eqp) = check_instance_pairs();
+        t.evals += n * n;
+        t.nontrivial += eqp;
+        t.outcome("instance-pairs");
+        ctx.violations(f);
+        ctx.merge(t);
+        ctx.space("InstanceInformation pairs: every name of <= 3 characters over {a, A, '.', '\\', ' ', e-acute} plus escaped / unescaped spellings, and variants in ports, addresses (incl. IPv4-mapped), attributes (absent / empty / value, key case, insertion order): all ordered pairs, a == b => same hash and found in a HashSet", n * n, "complete");
+        ctx.sample(json!({"kind": "instance-pairs"}));
+    }
 }
 
 pub fn replay(case: &Value) -> Vec<Finding> {
@@ -421,6 +506,7 @@ pub fn replay(case: &Value) -> Vec<Finding> {
         },
         "eqhash" => check_eq_hash().0,
         "odd" => check_odd_values().0,
+        "instance-pairs" => check_instance_pairs().0,
         "instances" => check_instances(case["ips"].as_u64().unwrap_or(0) as usize, case["ports"].as_u64().unwrap_or(0) as usize).0,
         _ => vec![],
     }
